@@ -329,6 +329,7 @@ class ConvexF:
         self.trace = []          # (x list, with_z, refused)
         self.keep_trace = True
         self.sparse_out = bool(inst.get('sparse_F'))
+        self.hook = None         # optional callable(call ordinal): lets the simulator make the user's F re-enter the library
         # the start point is an input of the caller: F() hands out the same stored matrix every time,
         # so a solver that writes into it is observable (C09: "never modifies ... start points")
         self.x0m = matrix(self.x0, (self.n, 1), 'd')
@@ -345,6 +346,8 @@ class ConvexF:
         if x is None:
             return self.mnl, self.x0m
         self.calls += 1
+        if self.hook is not None:
+            self.hook(self.calls)
         if self.calls > self.max_calls:
             raise RuntimeError('VERIF: F-call budget exhausted (line search does not terminate)')
         xl = list(x)
